@@ -79,12 +79,13 @@ def stamps(e):
 def main():
     wd = os.getcwd()
     res = []
-    for auto in (True, False):
+    # the clock runs forwards, and - the property quantifies over arbitrary clock values - backwards
+    for auto, tick in ((True, 7), (True, -7), (False, 7)):
         CLOCK[0] = 5000
-        f, e = build(os.path.join(wd, "sweep_%s.nix" % auto), auto)
+        f, e = build(os.path.join(wd, "sweep_%s_%d.nix" % (auto, tick)), auto)
         for label, key, fn in cases(e):
             before = stamps(e)
-            CLOCK[0] += 7
+            CLOCK[0] += tick
             try:
                 fn()
                 err = None
@@ -92,7 +93,7 @@ def main():
                 err = type(exc).__name__
             after = stamps(e)
             moved = sorted(k for k in e if after[k] != before[k])
-            entry = {"setter": label, "auto": auto, "clock": CLOCK[0], "raised": err, "moved": moved,
+            entry = {"setter": label + (" (clock running backwards)" if tick < 0 else ""), "auto": auto, "clock": CLOCK[0], "raised": err, "moved": moved,
                      "updated_at": after[key][1], "created_changed": sorted(k for k in e if after[k][0] != before[k][0])}
             if err is None:
                 if auto:
